@@ -123,6 +123,91 @@ R7 = "C09.S7.omitted-bound-is-not-encoded-as-an-index"
 R8 = "C09.S8.unknown-length-is-not-taken-for-zero"
 
 
+R7B = "C09.S7.optional-bound-is-not-clamped-into-range"
+CLAMPS = ("max", "min", "clamp", "saturating_sub", "saturating_add")
+
+
+def check_clamped_options(ctx, prog, helpers_, tag):
+    """S7b (round 12, seed C09-12): where a helper keeps a bound as an `Option` whose `None` has a meaning of its own ("walk down
+    to and including the first item"), a `Some(..)` must not carry a *clamped* number: clamping maps every bound that lies
+    outside the sequence onto an index inside it, and `Some(0)` (exclusive: stop above the first item) is not what a stop
+    before the first item means.  For every Option-typed local of the helper that is later tested for `None`: no payload it
+    is given comes out of `max` / `min` / `clamp` / a saturating operation (directly, or as the result of the closure handed
+    to `Option::map`)."""
+    n = 0
+    for hp in helpers_:
+        h = prog.fn(hp)
+        tested = set()
+        for sb in sorted(h.reachable):
+            if h.term(sb)["k"] != "switch":
+                continue
+            cd = flow.cond_of(h, sb)
+            if cd.kind == "discr" and cd.adt == "core::option::Option" and cd.place is not None and "p" not in cd.place:
+                tested.add(cd.place["l"])
+        for l in sorted(tested):
+            if l <= h.argc:
+                continue            # the parameter itself
+            n += 1
+            bad = []
+
+            def from_bound(g, op, depth=0):
+                """does the operand derive from the payload of an optional i64 bound (a parameter's `Some`, or the argument
+                of the closure handed to `Option::map`)"""
+                if "c" in op or depth > 5:
+                    return False
+                for o in flow.origins(g, op):
+                    if o.kind == "arg":
+                        if g.kind == "closure" and o.arg >= 2:
+                            return True
+                        if g.kind != "closure" and o.arg <= g.argc and is_opt_i64(g.locals[o.arg]):
+                            return True
+                    elif o.kind == "bin":
+                        if from_bound(g, o.rv["a"], depth + 1) or from_bound(g, o.rv["b"], depth + 1):
+                            return True
+                    elif o.kind == "cast":
+                        if from_bound(g, o.rv["op"], depth + 1):
+                            return True
+                    elif o.kind == "call" and o.call.args and any(from_bound(g, a_, depth + 1) for a_ in o.call.args if "c" not in a_):
+                        return True
+                return False
+
+            def clamp_in(g, op, depth=0):
+                if "c" in op or depth > 4:
+                    return
+                for o in flow.origins(g, op):
+                    if o.kind == "call" and o.call.name.rsplit("::", 1)[-1] in CLAMPS:
+                        if any(from_bound(g, a_) for a_ in o.call.args if "c" not in a_):
+                            bad.append(o.call.name.rsplit("::", 1)[-1])
+                    elif o.kind == "call" and o.call.name.rsplit("::", 1)[-1] in ("from", "into") and o.call.args:
+                        clamp_in(g, o.call.args[0], depth + 1)
+                    elif o.kind == "cast":
+                        clamp_in(g, o.rv["op"], depth + 1)
+            for o in flow.origins(h, l):
+                if o.kind == "agg" and o.rv.get("variant") == "Some":
+                    for x in o.rv["ops"]:
+                        clamp_in(h, x)
+                elif o.kind == "call" and o.call.name.endswith(("Option::<T>::map", "Option::map", "Option::<T>::and_then")) and len(o.call.args) > 1:
+                    for q in flow.origins(h, o.call.args[1]):
+                        if q.kind == "agg" and q.rv.get("closure"):
+                            from ..facts import norm_path
+                            cl = prog.fns.get(norm_path(q.rv["closure"]))
+                            if cl is not None:
+                                clamp_in(cl, {"cp": {"l": 0}})
+                                for c2 in cl.calls():
+                                    if c2.name.rsplit("::", 1)[-1] in CLAMPS and any(from_bound(cl, a_) for a_ in c2.args if "c" not in a_):
+                                        bad.append(c2.name.rsplit("::", 1)[-1])
+                        elif q.kind == "arg" or q.kind == "call":
+                            # a closure kept in a local / a function item: look at every closure of the helper it may be
+                            for cl in prog.closures_of(hp):
+                                if any(c2.name.rsplit("::", 1)[-1] in CLAMPS and any(from_bound(cl, a_) for a_ in c2.args if "c" not in a_)
+                                       for c2 in cl.calls()):
+                                    bad.append("clamp of the bound inside a closure of the helper")
+            ctx.ob(R7B, "%s|option-local%s" % (short(hp), tag), not bad,
+                   "an optional bound that is later tested for None receives a clamped payload (%s): a bound outside the "
+                   "sequence becomes an ordinary index inside it" % sorted(set(bad)), h.where(0))
+    return n
+
+
 def check_sentinels(ctx, prog, helpers_, tag):
     """S7: inside the slicing helpers an omitted bound (`None`) must stay distinguishable from every explicit one.  The
     contradiction that gives it away: a number that is a constant K exactly when the Option parameter is None, and
@@ -481,6 +566,8 @@ def run(ctx):
                 if c.name.startswith("core::option::Option::<T>::unwrap") and short(c.name) in ("unwrap", "expect") and g is not f:
                     ctx.ob(R5, "%s|unwrap%s" % (short(g.path), tag), False, "an unwrap inside a slicing closure can fail at run time", g.where(c.bb))
         n7 = check_sentinels(ctx, prog, [fwd, bwd], tag)
+        n7b = check_clamped_options(ctx, prog, [fwd, bwd], tag)
+        ctx.count("C09 optional bounds tested for None" + tag, n7b)
         ctx.count("C09 comparisons with a constant inside the helpers" + tag, n7)
         ctx.count("C09 functions in scope" + tag, len(sc.fns))
     if not ctx.is_borrowed:
